@@ -218,18 +218,14 @@ pub fn run<C: Ciphersuite, L: Lab<C>>(lab: &mut L, p: &Params) {
         }
         let commitment = shares[&ids[0]].commitment().clone();
         lab.check(commitment.coefficients().len() == t, "commitment has exactly t entries");
-        // coefficient k (k>=1) is draw number k-1 (dealer) resp. k (generate_with_dealer draws the key first)
-        let off = if sk.is_some() { 0 } else { 1 };
-        let mut coeffs = vec![];
-        if let Some(sk) = sk {
-            coeffs.push(Some(sk));
-        } else {
-            coeffs.push(lab.draw_scalar(0));
+        // the committed polynomial: phi_0 commits to the key; the t-1 non-constant coefficients are a
+        // full-rank image of draws of the caller's source (independent — not merely degree t-1).
+        // Which draw feeds which coefficient, and how many draws are made, is not prescribed.
+        let phis: Vec<_> = commitment.coefficients().iter().map(|c| c.value()).collect();
+        lab.eq_e(phis[0], vk.to_element(), "commitment entry 0 = the group key");
+        if t >= 2 {
+            lab.jointly_uniform_e(&phis[1..], "the t-1 non-constant coefficients are independent fresh values (full-rank image of draws)");
         }
-        for k in 1..t {
-            coeffs.push(lab.draw_scalar(k - 1 + off));
-        }
-        lab.check(lab.rng_requests().len() == t - 1 + off, "exactly t-1 coefficient draws (plus the key for generate_with_dealer)");
         for (i, id) in ids.iter().enumerate() {
             let sh = &shares[id];
             let kp = &keys.0[id];
@@ -248,31 +244,28 @@ pub fn run<C: Ciphersuite, L: Lab<C>>(lab: &mut L, p: &Params) {
                     lab.check(false, "honest share verifies");
                 }
             }
-            // share = f(id) for the polynomial (key, draws), Horner-free transcription: sum a_k id^k
-            if coeffs.iter().all(|c| c.is_some()) {
+            // the share lies on the committed polynomial — transcription independent of the library's
+            // evaluation routines: G * share = sum_k phi_k * id^k
+            {
                 let x = id.to_scalar();
                 let mut pw = one::<C>();
-                let mut acc = zero::<C>();
-                for c in coeffs.iter() {
-                    acc = acc + c.unwrap() * pw;
+                let mut acc = ident::<C>();
+                for phi in phis.iter() {
+                    acc = acc + *phi * pw;
                     pw = pw * x;
                 }
-                lab.eq_s(s_i, acc, "share = sum_k a_k * id^k for the one polynomial (key, draws)");
-                // degree exactly t-1: the share depends on the top coefficient's own draw
-                if t >= 2 && i < 2 {
-                    lab.depends_on_draw(s_i, t - 2 + off, "share depends on the top coefficient draw (degree exactly t-1)");
-                }
+                lab.eq_e(g::<C>() * s_i, acc, "share lies on the committed polynomial: G * share = sum_k phi_k * id^k");
             }
         }
-        for (k, c) in commitment.coefficients().iter().enumerate() {
-            if let Some(Some(a)) = coeffs.get(k) {
-                lab.eq_e(c.value(), g::<C>() * *a, "commitment entry k = G * a_k");
-            }
+        // degree exactly t-1 with independent coefficients: any t-1 shares are jointly uniform
+        if t >= 2 {
+            let firsts: Vec<_> = ids.iter().take(t - 1).map(|i| keys.0[i].signing_share().to_scalar()).collect();
+            lab.jointly_uniform(&firsts, "any t-1 shares are a full-rank image of the coefficient draws (degree exactly t-1, independent coefficients)");
         }
         lab.leave();
         lab.enter("reconstruct");
         let all: Vec<KeyPackage<C>> = ids.iter().map(|i| keys.0[i].clone()).collect();
-        let skv = sk.or(coeffs[0]);
+        let skv = sk;
         for (si, sub) in subsets(p.n as usize, t, t).into_iter().enumerate() {
             // the slice is the caller's: handed over in a rotated order
             let mut kps: Vec<KeyPackage<C>> = sub.iter().map(|i| all[*i].clone()).collect();
